@@ -213,14 +213,14 @@ open NeoModel.Wire (varUintSize)
 /-- **packing_valid_partial.** `ApplyPolicyToTxSet` returns a prefix of the pool (in pool order), at most
 MaxTransactionsPerBlock long, whose system fees are within MaxBlockSystemFee and for which
 `overhead + varsize(count) + Σ sizes ≤ MaxBlockSize`, where `overhead` is the size of the block without
-transactions *as the function computes it*.
+transactions (header incl. `PrevStateRoot` when StateRootInHeader, default block witness).
 
-Partial with respect to the statement's last sentence in two ways, both covered by the `proposal` stream
-(tie + search on the real code) only:
- * "… is accepted by the ledger after being serialised and parsed again" needs the block model of C06 and the
-   codecs of C17: `addBlock s (decode (encode (mkBlock (applyPolicy pool)))) = ok`;
- * `overhead` as computed omits the 32 bytes of `PrevStateRoot`, so with StateRootInHeader the real block may
-   exceed MaxBlockSize by up to 32 bytes (known finding `pack-size-stateroot`; witness below). -/
+Partial with respect to the statement's last sentence: "… is accepted by the ledger after being serialised
+and parsed again", i.e. `addBlock s (decode (encode (mkBlock (applyPolicy pool)))) = ok`, needs the block model
+of C06 and the codecs of C17; here it is covered by the `proposal` stream (tie + search on the real code:
+wire round trip, backup-side checks and AddBlock on a replica) only. That `overhead` is the real size of the
+empty block is tied by the same stream (the oracle measures the encoded block); before fix 2cbe22b it omitted
+the 32 bytes of `PrevStateRoot` and the stream's boundary-directed cases found blocks above MaxBlockSize. -/
 theorem packing_valid_partial (cfg : PackCfg) (txs : List (Nat × Nat)) :
     applyPolicy cfg txs <+: txs
     ∧ (cfg.maxTx ≠ 0 → (applyPolicy cfg txs).length ≤ cfg.maxTx)
@@ -240,11 +240,6 @@ theorem packing_valid_partial (cfg : PackCfg) (txs : List (Nat × Nat)) :
 
 -- non-vacuity: a pool of four, the third breaks the size limit
 example : applyPolicy ⟨10, 1000, 100, 700⟩ [(100, 1), (100, 2), (150, 3), (10, 4)] = [(100, 1), (100, 2)] := by decide
-
-/-- the size the function accounts for is not the size of the block when the header carries the previous
-state root: the packed block of this pool is `overhead + 32 + 1 + 200 = 1001 > 1000` bytes. -/
-example : let picked := applyPolicy ⟨10, 1000, 100, 768⟩ [(100, 1), (100, 2)]
-    picked = [(100, 1), (100, 2)] ∧ ¬ (768 + 32 + varUintSize picked.length + sizes picked ≤ 1000) := by decide
 
 end NeoModel.C07
 
@@ -266,7 +261,7 @@ def exChain : Chain :=
 def exPool : Pool := { has := fun _ => false, conflictsAttrErr := false, balance := 10 ^ 10, feeSum := 0, oracleErr := false, full := false }
 
 def exTx : Tx :=
-  { hash := 0, scriptOk := true, sysFee := 100, netFee := 0, validUntil := 20, size := 200,
+  { hash := 0, version := 0, scriptLen := 1, scriptOk := true, sysFee := 100, netFee := 0, validUntil := 20, size := 200,
     signers := [⟨10, false, .std true (emitBytes exSig) (sigScript exKey)⟩], attrs := [] }
 
 theorem exStd : StdWit exChain (.std true (emitBytes exSig) (sigScript exKey)) (sigScript exKey) :=
@@ -287,5 +282,44 @@ example : admit exChain exPool { exTx with netFee := 1183520 } = none
     rfl (by simp only [List.map_cons, List.map_nil, hfee]; decide)
   simp only [List.map_cons, List.map_nil, hfee] at h
   exact ⟨h.1, h.2 1183519 (by decide)⟩
+
+end NeoModel.C07
+
+namespace NeoModel.C07
+
+/-! ## 5. what comes from the wire is well-formed -/
+open NeoModel NeoModel.Fees NeoModel.Admission
+open NeoModel.Generated.FeeConsts
+
+theorem allDistinct_nodup : ∀ (l : List Nat), allDistinct l = true → l.Nodup := by
+  intro l
+  induction l with
+  | nil => intro _; exact List.nodup_nil
+  | cons a l ih =>
+    intro h
+    simp only [allDistinct, Bool.and_eq_true, Bool.not_eq_true', List.contains_eq_mem, decide_eq_false_iff_not] at h
+    exact List.nodup_cons.mpr ⟨h.1, ih h.2⟩
+
+/-- **admit_wellformed.** What is admitted from the wire is well-formed: version 0, between 1 and 16 signers,
+signers + attributes ≤ 16, no account signs twice, at most one attribute of each type other than Conflicts,
+a non-empty script of at most 65535 bytes — and it passed `admit` (so `admit_sound` applies). -/
+theorem admit_wellformed (c : Chain) (p : Pool) (t : Tx) (h : admitWire c p t = none) :
+    t.version = 0 ∧ t.signers ≠ [] ∧ t.attrs.length + t.signers.length ≤ maxAttributes
+    ∧ (t.signers.map (·.account)).Nodup
+    ∧ ((t.attrs.filter fun a => a.typ != attrConflicts).map (·.typ)).Nodup
+    ∧ t.scriptLen ≠ 0 ∧ t.scriptLen ≤ maxScriptLength
+    ∧ admit c p t = none := by
+  unfold admitWire at h
+  split at h
+  · contradiction
+  · rename_i hw
+    simp only [Bool.not_eq_true, Bool.not_eq_false'] at hw
+    simp only [wellFormed, Bool.and_eq_true, beq_iff_eq, Bool.not_eq_true', decide_eq_true_eq, bne_iff_ne, ne_eq] at hw
+    obtain ⟨⟨⟨⟨⟨⟨⟨h1, h2⟩, _⟩, h4⟩, h5⟩, h6⟩, h7⟩, h8⟩ := hw
+    refine ⟨h1, ?_, h4, allDistinct_nodup _ h5, allDistinct_nodup _ h6, h7, h8, h⟩
+    intro hn; rw [hn] at h2; simp at h2
+
+example : admitWire exChain exPool { exTx with netFee := 1183520 } = none := by decide
+example : admitWire exChain exPool { exTx with netFee := 1183520, signers := exTx.signers ++ exTx.signers } = some .malformed := by decide
 
 end NeoModel.C07
